@@ -181,6 +181,17 @@ def stepSign (c : Cfg SB) (toks : List String) : Cfg SB × String :=
         | some k => let r := call id c q (some k); (r.1, showOut r.2)
       | some _, some _ => (c, "bad-op")
   | ["crash"] => ((Sign.step id c .crash).1, "ok")
+  | ["crash", via] =>
+    -- restart through a named loader; key file and state file both exist in the streams
+    let ld : Option Loader :=
+      if via = "via=loadorgen" then some .loadOrGen else if via = "via=load" then some .load
+      else if via = "via=emptystate" then some .emptyState else none
+    match ld with
+    | none => (c, "bad-op")
+    | some ld =>
+      match restartWith id ld true true c with
+      | some c' => (c', "ok")
+      | none => (c, "exit")
   | "node" :: rest =>
     -- a whole single-validator node killed at persistence syscalls and restarted: by
     -- `Props.C04.released_consistent` no history of requests and crashes releases conflicting
